@@ -276,6 +276,14 @@ impl Property for C08 {
         find.starts_via_file = rng.chance(1, 10);
         let nout = rng.urange(1, 12);
         find.outcomes = if rng.chance(1, 2) { gen_outcomes(rng, nout, true) } else { vec![] };
+        if find.ambient.stdout_closed_pipe && rng.chance(2, 3) {
+            // the child that wrote to the same pipe dies of SIGPIPE: a failed invocation
+            let at = rng.usize_below(find.outcomes.len() + 1).min(3);
+            while find.outcomes.len() <= at {
+                find.outcomes.push(Outcome::Exit(0));
+            }
+            find.outcomes[at] = Outcome::Signal(libc::SIGPIPE, false);
+        }
         if tight {
             // ARG_MAX at the kernel's 128 KiB floor and an environment that
             // leaves argmax only 6..30 KB: even small trees need several batches
@@ -302,6 +310,7 @@ impl Property for C08 {
             find.starts_via_file = false;
             find.outcomes.retain(|o| matches!(o, Outcome::Exit(_) | Outcome::Signal(..)));
             find.ambient.stdout_tty = false;
+            find.ambient.stdout_closed_pipe = false;
         }
         let mut sc = Sc {
             find,
